@@ -8,7 +8,7 @@ import queue
 seed = sys.argv[1]
 nw = int(sys.argv[2]) if len(sys.argv) > 2 else 5
 pre = sys.argv[3] if len(sys.argv) > 3 else ""
-BASE = "/root/scratch/par"
+BASE = os.environ.get("PAR_BASE", "/root/scratch/par")
 
 
 def sh(cmd, **kw):
